@@ -2,6 +2,8 @@ package props
 
 import (
 	"github.com/ipfs/go-cid"
+
+	"verif/drv"
 )
 
 // drvCids converts raw CID bytes to go-cid values (nil slice when isNil).
@@ -18,4 +20,19 @@ func drvCids(raws [][]byte, isNil bool) []cid.Cid {
 		out = append(out, c)
 	}
 	return out
+}
+
+// Prebuild builds the auxiliary binaries (C08 explorer and -race complement, car CLI) so
+// that the first check run does not pay for them.
+func Prebuild() int {
+	rc := 0
+	if err := c08Setup("quick"); err != nil {
+		println("prebuild C08:", err.Error())
+		rc = 1
+	}
+	if err := drv.BuildCar(); err != nil {
+		println("prebuild car:", err.Error())
+		rc = 1
+	}
+	return rc
 }
